@@ -599,3 +599,47 @@ class AppendLoopToComprehension(_StmtLists):
 
 ALL['inline_temporaries'] = InlineTemporaries
 ALL['append_loop_to_comprehension'] = AppendLoopToComprehension
+
+
+def _private_names(root):
+    """private function / method names of the package that the test suite does not mention"""
+    priv = set()
+    for dp, _, files in os.walk(os.path.join(root, 'setigen')):
+        for f in files:
+            if f.endswith('.py'):
+                for n in ast.walk(ast.parse(open(os.path.join(dp, f)).read())):
+                    if isinstance(n, ast.FunctionDef) and n.name.startswith('_') and not n.name.startswith('__'):
+                        priv.add(n.name)
+    return priv
+
+
+class RenamePrivateFunctions(ast.NodeTransformer):
+    """every private function / method `_name` becomes `_name_impl`, definition and references"""
+    PRIV = set()
+
+    def visit_FunctionDef(self, n):
+        self.generic_visit(n)
+        if n.name in self.PRIV:
+            n.name += '_impl'
+        return n
+
+    def visit_Attribute(self, n):
+        self.generic_visit(n)
+        if n.attr in self.PRIV:
+            n.attr += '_impl'
+        return n
+
+    def visit_Name(self, n):
+        if n.id in self.PRIV:
+            n.id += '_impl'
+        return n
+
+
+ALL['rename_private_functions'] = RenamePrivateFunctions
+_apply_plain = apply
+
+
+def apply(root, name):          # noqa: F811  (the renaming transform needs a package-wide pre-pass)
+    if name == 'rename_private_functions':
+        RenamePrivateFunctions.PRIV = _private_names(root)
+    return _apply_plain(root, name)
